@@ -35,12 +35,17 @@ def safe_hash(rel):
         return ("unhashable", type(exc).__name__)
 
 
-def fingerprint(rel, with_payloads=True):
+def fingerprint(rel, with_payloads=True, marker_payloads=False):
+    """``marker_payloads``: also the content of payloads held by Transfer / Materialization nodes
+    (only meaningful for trees whose markers already carry their payloads, e.g. what a Processor
+    returned: on other trees materializations legitimately *gain* payloads)."""
     fp = [repr(rel), str(rel), tuple(sorted(map(str, rel.columns))), rel.min_rows, rel.max_rows, safe_hash(rel), str(rel.engine), rel.is_locked]
     if with_payloads:
         leafs = []
         for n in interp.walk(rel):
             if isinstance(n, R.LeafRelation):
                 leafs.append((n.name, payload_fp(n.payload)))
+            elif marker_payloads and isinstance(n, (R.Transfer, R.Materialization)) and n.payload is not None:
+                leafs.append((type(n).__name__, payload_fp(n.payload)))
         fp.append(tuple(leafs))
     return tuple(fp)
